@@ -49,9 +49,11 @@ NAMES3 = ('sc', 'fcc', 'bcc', 'diamond', 'hcp', 'omega', 'rumpled', 'b2', 'l12',
 
 
 def cases(tier, seed):
-    n = 40 if tier == 'quick' else 400
+    global CHUNK
+    n = 40 if tier == 'quick' else 800
+    CHUNK = 4 if tier == 'quick' else 8
     # feature slices are fixed by the case index so that every run sees every regime
-    return [{'seed': seed, 'idx': i, 'hashseed': i % 4, 'tier': tier, 'mode': 'large' if i % 4 == 3 else 'small',
+    return [{'seed': seed, 'idx': i, 'hashseed': i % 4 if tier == 'quick' else i % 7, 'tier': tier, 'mode': 'large' if i % 4 == 3 else 'small',
              'spec': i % 3 == 1, 'vac': i % 5 in (0, 3), 'jn': i % 2 == 0} for i in range(n)]
 
 
